@@ -473,7 +473,17 @@ func runC16(e *env) {
 	}
 	res := c16Parallel(len(jobs), func(i int) string { return c16All(jobs[i].z, jobs[i].n) })
 	for i, j := range jobs {
-		e.emit("C16.inst", itoa(j.z), itoa(j.n), "-", res[i])
+		// + what the generator of the zone's largest instance attributes to instance n (sorted), so
+		// that "the same tokens whoever computes them" is judged on the implementation's outputs
+		row := "-"
+		if maps[j.z] != nil {
+			if r, ok := maps[j.z][j.n]; ok {
+				sr := append([]uint32{}, r...)
+				sort.Slice(sr, func(a, b int) bool { return sr[a] < sr[b] })
+				row = u32s(sr)
+			}
+		}
+		e.emit("C16.inst", itoa(j.z), itoa(j.n), "-", res[i], row)
 	}
 
 	lap("inst")
@@ -682,6 +692,123 @@ func runC16(e *env) {
 		e.emit("C16.part", strings.Join(ops, ","), "-", "-", pres[i])
 	}
 	lap("part")
+
+	// ---- 7. the public constructor: zone names that are / are not among the configured zones
+	// (sorting before, between and after them), zone lists of 0..9 entries, instance names
+	r7 := newRng(e.seed, 166)
+	pool := []string{"zone-a", "zone-b", "zone-c", "zone-d", "zone-e", "zone-f", "zone-g", "zone-h", "zone-i"}
+	strangers := []string{"", "zone-0", "zone", "zone-a-1", "zone-ab", "zone-bb", "zone-c0", "zone-zz", "zonf", "ZONE-A", "a", "zz", "zone-a ", "zone-h1"}
+	sq := func(s string) string {
+		if s == "" {
+			return "~"
+		}
+		return s
+	}
+	ctorErr := func(err error) string {
+		msg := err.Error()
+		switch {
+		case strings.HasPrefix(msg, "number of zones"):
+			return "err:zoneCount"
+		case strings.HasPrefix(msg, "zone ") && strings.HasSuffix(msg, "is not valid"):
+			return "err:zoneNotValid"
+		default:
+			return "err:badInstanceID"
+		}
+	}
+	build := func(inst, zone string, zones []string) string {
+		g, err := ring.NewSpreadMinimizingTokenGenerator(inst, zone, zones, false)
+		if err != nil {
+			return ctorErr(err)
+		}
+		obs := ""
+		func() {
+			defer func() {
+				if rec := recover(); rec != nil {
+					obs = "err:panic"
+				}
+			}()
+			obs = "ok:" + u32s(g.GenerateTokens(512, nil))
+		}()
+		return obs
+	}
+	type ctorJob struct {
+		inst, zone string
+		zones      []string
+	}
+	var cj []ctorJob
+	for i := 0; i < 400*genScale; i++ {
+		var nz int
+		switch x := r7.intn(20); {
+		case x == 0:
+			nz = 0
+		case x == 1:
+			nz = 9
+		default:
+			nz = 1 + r7.intn(8)
+		}
+		// a random subset of the pool, in random order
+		perm := append([]string{}, pool...)
+		for j := len(perm) - 1; j > 0; j-- {
+			k := r7.intn(j + 1)
+			perm[j], perm[k] = perm[k], perm[j]
+		}
+		zones := perm[:nz]
+		var zone string
+		switch x := r7.intn(10); {
+		case x < 4 && nz > 0:
+			zone = zones[r7.intn(nz)]
+		case x < 5: // a pool zone that may or may not be configured
+			zone = pool[r7.intn(len(pool))]
+		default:
+			zone = strangers[r7.intn(len(strangers))]
+		}
+		n := r7.intn(10)
+		inst := fmt.Sprintf("ingester-%s-%d", zone, n)
+		switch r7.intn(14) {
+		case 0:
+			inst = "ingester"
+		case 1:
+			inst = "ingester-"
+		case 2:
+			inst = fmt.Sprintf("ing-%da", n)
+		case 3:
+			inst = fmt.Sprintf("-%d", n)
+		case 4:
+			inst = fmt.Sprintf("a-b-00%d", n)
+		}
+		cj = append(cj, ctorJob{inst, zone, zones})
+	}
+	type ctorRes struct{ obs, cfg string }
+	cres := make([]ctorRes, len(cj))
+	c16Parallel(len(cj), func(i int) string {
+		j := cj[i]
+		obs := build(j.inst, j.zone, j.zones)
+		sorted := append([]string{}, j.zones...)
+		sort.Strings(sorted)
+		cfg := make([]string, len(sorted))
+		for x, cz := range sorted {
+			// the same instance index in every configured zone, through the same constructor
+			cfg[x] = strings.TrimPrefix(build(j.inst, cz, j.zones), "ok:")
+		}
+		c := strings.Join(cfg, ";")
+		if len(cfg) == 0 {
+			c = "none"
+		}
+		cres[i] = ctorRes{obs, c}
+		return ""
+	})
+	for i, j := range cj {
+		zs := make([]string, len(j.zones))
+		for x, zn := range j.zones {
+			zs[x] = sq(zn)
+		}
+		zl := strings.Join(zs, ",")
+		if len(zs) == 0 {
+			zl = "none"
+		}
+		e.emit("C16.ctor", j.inst, sq(j.zone), zl, cres[i].obs, cres[i].cfg)
+	}
+	lap("ctor")
 }
 
 func itoa64(v uint64) string { return strconv.FormatUint(v, 10) }
